@@ -56,6 +56,20 @@ template <class A> static void sweep(A& f, int lo, int hi, const char* name) {
       cur("integer == element", v, b); if ((o[3] != 0) != ((UL)m == b) || (o[4] != 0) != ((UL)m == b)) fail(std::string(g_cur) + " is " + std::to_string(o[3]) + "/" + std::to_string(o[4]) + ", the residues are " + std::to_string(m) + " and " + std::to_string(b)); } }
   { long o; if (f.tm(0, 0, &o)) for (UL a = 0; a < P; a++) for (UL b = 0; b < P; b++) { f.tm(a, b, &o); ++total; cur("times_minus", a, b); if (o != (long)((P - (a * b) % P) % P)) fail(std::string(g_cur) + " = " + std::to_string(o) + ", -x*y reduced is " + std::to_string((P - (a * b) % P) % P)); } }
 }
+// prime ranges whose product lies in [2^31, 2^32) are accepted by the small-characteristic classes: spot checks of the inverses there
+// (exhaustion is out of reach): x * inverse(x) is 1 modulo every prime not dividing x and 0 modulo the others; same for a partial inverse
+template <class A> static void spot(A& f, int lo, int hi, const char* name) {
+  std::vector<int> pr = primes_of(lo, hi); UL P = 1; for (int p : pr) P *= p;
+  char rg[64]; snprintf(rg, 64, "%s[%d,%d]", name, lo, hi);
+  ++total; snprintf(g_cur, 256, "%s characteristic", rg); if (f.P() != P) { fail(std::string(g_cur) + " is " + std::to_string(f.P()) + ", expected " + std::to_string(P)); return; }
+  UL xs[] = {1, 2, 4, 31, 1000003, 2147483647ul, 2147483659ul, 3000000019ul, P - 1, P - 2, P / 2, (UL)pr[0], (UL)pr[0] * pr.back(), 0};
+  UL Q2 = (UL)pr[0] * pr[1];
+  for (UL x : xs) { if (x >= P) continue;
+    ++total; snprintf(g_cur, 256, "%s get_inverse(%lu,0)", rg, x); UL v = f.inv(x); bool ok = v < P; for (int q : pr) { if (x % q != 0) { if ((x % q) * (v % q) % q != 1) ok = false; } else if (v % q != 0) ok = false; }
+    if (!ok) fail(std::string(g_cur) + " = " + std::to_string(v) + ": not the inverse modulo every prime of the range not dividing the element");
+    for (UL Q : {Q2, P / pr[0], P}) { ++total; snprintf(g_cur, 256, "%s get_partial_inverse(%lu,%lu)", rg, x, Q); PR r = f.pinv(x, Q); UL T = 1; for (int q : pr) if (Q % q == 0 && x % q != 0) T *= q;
+      bool ok2 = r.second == T && r.first < P; for (int q : pr) { if (T % q == 0) { if ((x % q) * (r.first % q) % q != 1) ok2 = false; } else if (r.first % q != 0) ok2 = false; }
+      if (!ok2) fail(std::string(g_cur) + " = (" + std::to_string(r.first) + "," + std::to_string(r.second) + "), expected T=" + std::to_string(T)); } } }
 struct A_small_ops { Multi_field_operators_with_small_characteristics f; A_small_ops(int lo, int hi) : f(lo, hi) {}
   UL P() { return f.get_characteristic(); } PR pinv(UL e, UL Q) { auto r = f.get_partial_inverse((unsigned)e, (unsigned)Q); return {r.first, r.second}; }
   UL add(UL a, UL b) { return f.add(a, b); } UL sub(UL a, UL b) { return f.subtract(a, b); } UL mul(UL a, UL b) { return f.multiply(a, b); }
@@ -93,6 +107,9 @@ int main(int argc, char** argv) {
   if (argc < 3) return 2; int cls = atoi(argv[1]), tier = atoi(argv[2]);
   const char* names[] = {"Multi_field_operators_with_small_characteristics", "Shared_multi_field_element_with_small_characteristics", "Multi_field_element_with_small_characteristics", "Multi_field_operators", "Shared_multi_field_element", "Multi_field_element", "persistent_cohomology::Multi_field"};
   g_cls = names[cls]; signal(SIGSEGV, on_crash); signal(SIGABRT, on_crash); signal(SIGFPE, on_crash);
+  if (cls == 0) { for (auto r : {std::pair<int,int>{3, 29}, {13, 37}}) { A_small_ops a(r.first, r.second); spot(a, r.first, r.second, names[0]); } }
+  if (cls == 1) { for (auto r : {std::pair<int,int>{3, 29}, {13, 37}}) { A_small_shared a(r.first, r.second); spot(a, r.first, r.second, names[1]); } }
+  if (cls == 2) { { A_small_el<3, 29> a; spot(a, 3, 29, names[2]); } { A_small_el<13, 37> a; spot(a, 13, 37, names[2]); } }
   switch (cls) { case 0: DYN(A_small_ops, names[0]); break; case 1: DYN(A_small_shared, names[1]); break; case 2: TPL(A_small_el, names[2]); break;
     case 3: DYN(A_gmp_ops, names[3]); break; case 4: DYN(A_gmp_shared, names[4]); break; case 5: TPL(A_gmp_el, names[5]); break; case 6: DYN(A_pcoh, names[6]); break; }
   printf("{\"class\":\"%s\",\"checked\":%ld,\"mismatches\":%ld,\"first\":[%s]}\n", names[cls], total, bad, firsts.c_str());
